@@ -220,7 +220,12 @@ DeclLines == <<
   "println(dup(1))",
   "let o: option<void> = option.some(nil)",
   "println(match o { _ -> 1 })",
-  "println(match o { .some(_) -> 1, .none -> 2 })" >>
+  "println(match o { .some(_) -> 1, .none -> 2 })",
+  "let ar: array<> = [1]",
+  "fn ident(x: array) = x",
+  "println(ident([1])[0])",
+  "let oo: option<int, int> = option.some(1)",
+  "let pp: Pt<int> = Pt(1)" >>
 LineIdx == 1..Len(DeclLines)
 RECURSIVE JoinLines(_, _)
 JoinLines(ls, i) == IF i > Len(ls) THEN "" ELSE ls[i] \o "\n" \o JoinLines(ls, i + 1)
